@@ -126,6 +126,7 @@ func lintRun(cmd *cobra.Command, args []string) error {
 			content, err := os.ReadFile(filepath.Clean(fileResult.Filename)) // #nosec G304
 			if err != nil {
 				fmt.Fprintf(cmd.ErrOrStderr(), "Error reading %s: %v\n", fileResult.Filename, err)
+				writeFailures++
 				continue
 			}
 
